@@ -53,6 +53,13 @@ class ShapeArr:
     def __init__(self, shape, dtype):
         self.shape, self.dtype, self.ndim = tuple(shape), np.dtype(dtype), len(shape)
 
+    @property
+    def size(self):
+        r = 1
+        for d in self.shape:
+            r = r * d
+        return r
+
     def astype(self, dt, casting="unsafe", **k):
         if not np.can_cast(self.dtype, dt, casting=casting):
             raise TypeError(f"Cannot cast array data from {self.dtype!r} to {np.dtype(dt)!r} according to the rule '{casting}'")
@@ -75,6 +82,9 @@ class Ctor(Unit):
         if S.symbolic:
             z = ShapeArr(dims, self.dtype)
         else:
+            from pbsym.modes import PreconditionFailed
+            if int(np.prod([int(d) for d in dims] or [1])) > 10**6:
+                raise PreconditionFailed("array too large to replay concretely")
             z = np.zeros(tuple(int(d) for d in dims), dtype=self.dtype)
         return {"z": z, "dims": dims}
 
